@@ -12,9 +12,9 @@ NT == Len(Traces)
 VARIABLE ti
 tvars == <<m, sch, ti>>
 
-SchOf(T) == [C |-> T.C, L0 |-> T.L0, H |-> T.H, wins |-> T.wins, groups |-> T.groups,
+SchOf(T) == [dev |-> Dev, C |-> T.C, L0 |-> T.L0, H |-> T.H, wins |-> T.wins, groups |-> T.groups,
              jobs |-> T.jobs, probes |-> T.probes, holds |-> T.holds]
-EmptySch == [C |-> 1, L0 |-> 0, H |-> 0, wins |-> <<>>, groups |-> <<>>, jobs |-> <<>>, probes |-> <<>>,
+EmptySch == [dev |-> {}, C |-> 1, L0 |-> 0, H |-> 0, wins |-> <<>>, groups |-> <<>>, jobs |-> <<>>, probes |-> <<>>,
              holds |-> <<>>]
 
 FirstDiffLog(T) ==
